@@ -287,7 +287,7 @@ def conv_inst(name, L, opts="", defs=(), timeout=600, functions=None, keep=None,
     inst.functional_only = True
     return inst
 
-def conv_family(tier, seed, meta=False, err=False, kinds=None, per_class=None, defs=("CHECK_KEYS",), sysl=True, nlines=(2, 3), delims=None, comments=None, python=False, tag="conv", sys_quick=28, maxlen=None, keep=None):
+def conv_family(tier, seed, meta=False, err=False, kinds=None, per_class=None, defs=("CHECK_KEYS",), sysl=True, nlines=(2, 3), delims=None, comments=None, python=False, tag="conv", sys_quick=28, maxlen=None, keep=None, opts=None):
     import random
     rng = random.Random(1000 + seed)
     insts = []
@@ -314,7 +314,7 @@ def conv_family(tier, seed, meta=False, err=False, kinds=None, per_class=None, d
             for tg, L in layouts:
                 if not L.valid() or len(L.tpl) == 0 or len(L.tpl) > (maxlen or (26 if tier == "quick" else 34)): continue
                 if not err and L.err is not None: continue
-                insts.append(conv_inst("%s-%s-%s-%s" % (tag, dn, cn, tg), L, opts="PYTHON_STYLE=1" if python else "", defs=defs, keep=keep(len(insts)) if callable(keep) else keep))
+                insts.append(conv_inst("%s-%s-%s-%s" % (tag, dn, cn, tg), L, opts=opts if opts is not None else ("PYTHON_STYLE=1" if python else ""), defs=defs, keep=keep(len(insts)) if callable(keep) else keep))
     return insts
 
 def c02(tier):
@@ -666,6 +666,8 @@ def c15(tier):
     combos = [[d] for d in docs] + [[u] for u in unk]
     combos += [["PARSING_DIRS=/a", "PARSING_DIRS=/bb:/c"], ["CONFIG_DIRS=.d:/x.d", "CONFIG_DIRS=.e"], ["ROOT_PREFIX=/r", "ROOT_PREFIX=/tmp/q"], ["JOIN_SAME_ENTRIES=1", "JOIN_SAME_ENTRIES=1"],
                ["PARSING_DIRS=/a:/bb:/c", "JOIN_SAME_ENTRIES=1", "PARSING_DIRS=/a"], ["JOIN_SAME_ENTRIES=1", "FOO=1"], ["FOO=1", "PYTHON_STYLE=1"], ["PARSING_DIRS=/a", "", "PYTHON_STYLE=1"]]
+    kinds5 = ["JOIN_SAME_ENTRIES=1", "PYTHON_STYLE=1", "PARSING_DIRS=/a:/bb", "CONFIG_DIRS=.d:/x.d", "ROOT_PREFIX=/r"]
+    combos += [[a, b] for a in kinds5 for b in kinds5 if a != b]
     for _ in range(8 if tier == "quick" else 60):
         k = rng.choice([2, 3, 4])
         combos.append([rng.choice(docs + (unk if rng.random() < 0.25 else [])) for _ in range(k)])
@@ -688,6 +690,15 @@ def join_insts(tier):
     import itertools
     insts = []
     pats = ["aa", "aaa", "aba", "aab", "abab", "aaaa"] if tier == "quick" else ["".join(p) for n in (2, 3, 4) for p in itertools.product("ab", repeat=n)]
+    secpats = {"aaa": ["sts", "sst"], "aba": ["sts"], "aaaa": ["stst", "stts"], "abab": ["sstt", "stts"]}
+    for pat in pats:
+        n = len(pat)
+        for sp in secpats.get(pat, []) if tier == "quick" else ["".join(x) for x in itertools.product("st", repeat=n) if x[0] == "s" and "t" in x]:
+            for ems in (["0" * n, "0" * (n - 1) + "1"] if tier == "quick" else ["".join(e) for e in itertools.product("01", repeat=n)]):
+                d = {"STRCAP": 4 * n + 6, "VCAP": n + 2, "NENT": n, "KPAT": '"%s"' % pat, "EPAT": '"%s"' % ems, "SPAT": '"%s"' % sp, "VFS_MAXNODES": 2}
+                insts.append(Instance("join-%s-s%s-e%s" % (pat, sp, ems), "j_join.c", d, unwind=4 * n + 7, unwindset=lib_unwinds(n, 4) + [(r"j_join\.c", r"i < NENT|j < NENT|p < |which < 4", n + 3), (r"libeconf_ext\.c", r"strsep", n + 3), (r"builtin-library-strncpy", r"", 18)],
+                                      timeout=400, mem_gb=6, leak_check=True, functions="join_same_entries, econf_getStringValue, econf_getExtValue, econf_freeFile",
+                                      bounds="entries with keys %s in sections %s (re-opened sections), definitions marked 1 in %s are empty, the others one symbolic non-blank character" % (pat, sp, ems), expect_reach=["end"]))
     for pat in pats:
         n = len(pat)
         empties = [e for e in itertools.product("01", repeat=n)]
@@ -695,7 +706,7 @@ def join_insts(tier):
         for em in empties:
             ems = "".join(em)
             d = {"STRCAP": 4 * n + 6, "VCAP": n + 2, "NENT": n, "KPAT": '"%s"' % pat, "EPAT": '"%s"' % ems, "VFS_MAXNODES": 2}
-            inst = Instance("join-%s-e%s" % (pat, ems), "j_join.c", d, unwind=4 * n + 7, unwindset=lib_unwinds(n, 3) + [(r"j_join\.c", r"i < NENT|j < NENT|p < ", n + 2), (r"libeconf_ext\.c", r"strsep", n + 3), (r"builtin-library-strncpy", r"", 18)],
+            inst = Instance("join-%s-e%s" % (pat, ems), "j_join.c", d, unwind=4 * n + 7, unwindset=lib_unwinds(n, 3) + [(r"j_join\.c", r"i < NENT|j < NENT|p < |which < 4", n + 3), (r"libeconf_ext\.c", r"strsep", n + 3), (r"builtin-library-strncpy", r"", 18)],
                             timeout=400, mem_gb=6, leak_check=True, functions="join_same_entries, econf_getStringValue, econf_getExtValue, econf_freeFile",
                             bounds="entries with keys %s (same section), definitions marked 1 in %s are empty, the others one symbolic non-blank character" % (pat, ems), expect_reach=["end"])
             insts.append(inst)
@@ -764,6 +775,8 @@ def c13(tier):
     seed = int(__import__("os").environ.get("VERIF_SEED", "0") or 0)
     insts = conv_family(tier, seed, err=True, sysl=False, per_class=3 if tier == "quick" else 14, tag="err", defs=(), delims=["eq", "coleq", "sp", "speq"] if tier == "quick" else None,
                         nlines=(1, 2, 2) if tier == "quick" else (1, 2, 3), maxlen=16 if tier == "quick" else 30)
+    insts += conv_family(tier, seed + 7, err=True, sysl=False, per_class=2 if tier == "quick" else 8, tag="errjoin", defs=(), delims=["eq", "sp"] if tier == "quick" else ["eq", "coleq", "sp", "sptab"],
+                         comments=["hash"], nlines=(1, 2, 2) if tier == "quick" else (1, 2, 3), maxlen=16 if tier == "quick" else 30, opts="JOIN_SAME_ENTRIES=1")
     insts += fault_insts(tier, range(6), (2,), seed, 1 if tier == "quick" else 8)
     insts.append(r_inst(0, expect=["restrictions lifted by reset"]))
     insts.append(small("errstring", "e_errstring.c", {}, unwind=64, functions="econf_errString", bounds="every code 0..24 of enum econf_err (symbolic)", leak=False))
